@@ -689,43 +689,88 @@ func c08r4(p *Program, r *Report) {
 		return
 	}
 	info := fi.Pkg.TypesInfo
-	// capacities
-	var caps []int64
-	capCond := ""
+	// the word slice: make([]uint64, N); N resolves to <capacity> / 64; the capacity variable takes 128 and, under
+	// the protocol test, 32768 (identified by role, not by name)
+	var mk *ast.CallExpr
+	var sliceObj types.Object
 	ast.Inspect(fi.Decl.Body, func(x ast.Node) bool {
-		switch s := x.(type) {
-		case *ast.AssignStmt:
-			if len(s.Lhs) == 1 && exprStr(s.Lhs[0]) == "maxStreams" {
-				if v, ok := constInt(info, s.Rhs[0]); ok {
-					caps = append(caps, v)
+		if c, ok := x.(*ast.CallExpr); ok && calleeName(info, c) == "builtin.make" && len(c.Args) >= 2 && mk == nil {
+			if sl, isSl := info.TypeOf(c).Underlying().(*types.Slice); isSl {
+				if bt, isB := sl.Elem().Underlying().(*types.Basic); isB && bt.Kind() == types.Uint64 {
+					mk = c
+					if as, isAs := p.Parent(c).(*ast.AssignStmt); isAs && len(as.Lhs) == 1 {
+						if id, isId := as.Lhs[0].(*ast.Ident); isId {
+							sliceObj = info.Defs[id]
+							if sliceObj == nil {
+								sliceObj = info.Uses[id]
+							}
+						}
+					}
 				}
-			}
-		case *ast.IfStmt:
-			if strings.Contains(exprStr(s.Cond), "protocol") {
-				capCond = exprStr(s.Cond)
 			}
 		}
 		return true
 	})
-	okCaps := len(caps) == 2 && (caps[0] == 128 && caps[1] == 32768)
-	r.Check(okCaps && (capCond == "protocol > 2" || capCond == "protocol >= 3"), fi.Decl, "streams.New capacities 128 (v1-2) / 32768 (v3+)", "128 then 32768 under "+capCond, "stream capacities are not 128 for protocol <= 2 and 32768 for protocol >= 3: ids exceed the 7/15-bit stream field")
-	// buckets = maxStreams / 64 ; streams[0] = 1 << 63 ; no other pre-set bit
-	okBuckets, okReserve, other := false, false, false
+	okBuckets := false
+	var capObj types.Object
+	if mk != nil {
+		_, n := p.resolveValue(fi, mk.Args[1], 0)
+		n = stripAllConv(info, n)
+		if b, ok := ast.Unparen(n).(*ast.BinaryExpr); ok && b.Op == token.QUO {
+			if v, ok := constInt(info, b.Y); ok && v == 64 {
+				if id, isId := ast.Unparen(stripAllConv(info, b.X)).(*ast.Ident); isId {
+					capObj = info.Uses[id]
+					okBuckets = true
+				}
+			}
+		}
+	}
+	var caps []int64
+	capCond := ""
+	protoName := ""
+	if po := paramObj(info, fi.Decl.Type, 0); po != nil {
+		protoName = po.Name()
+	}
+	ast.Inspect(fi.Decl.Body, func(x ast.Node) bool {
+		switch s := x.(type) {
+		case *ast.AssignStmt:
+			if len(s.Lhs) == 1 && len(s.Rhs) == 1 && capObj != nil {
+				if id, isId := s.Lhs[0].(*ast.Ident); isId && (info.Defs[id] == capObj || info.Uses[id] == capObj) {
+					if v, ok := constInt(info, s.Rhs[0]); ok {
+						caps = append(caps, v)
+						if ifs, isIf := p.enclosing(s, fi.Decl, func(m ast.Node) bool { _, is := m.(*ast.IfStmt); return is }).(*ast.IfStmt); isIf && posWithin(ifs.Body, s.Pos()) {
+							if b, isB := ast.Unparen(ifs.Cond).(*ast.BinaryExpr); isB && exprStr(b.X) == protoName {
+								if k, isK := constInt(info, b.Y); isK {
+									capCond = "protocol " + b.Op.String() + " " + itoa(int(k))
+								}
+							}
+						}
+					}
+				}
+			}
+		}
+		return true
+	})
+	okReserve, other := false, false
 	ast.Inspect(fi.Decl.Body, func(x ast.Node) bool {
 		as, ok := x.(*ast.AssignStmt)
 		if !ok || len(as.Lhs) != 1 || len(as.Rhs) != 1 {
 			return true
 		}
-		if exprStr(as.Lhs[0]) == "buckets" {
-			if b, ok := ast.Unparen(as.Rhs[0]).(*ast.BinaryExpr); ok && b.Op == token.QUO && exprStr(b.X) == "maxStreams" {
-				if v, ok := constInt(info, b.Y); ok && v == 64 {
-					okBuckets = true
-				}
-			}
-		}
-		if ix, ok := ast.Unparen(as.Lhs[0]).(*ast.IndexExpr); ok && exprStr(ix.X) == "streams" {
+		if ix, ok := ast.Unparen(as.Lhs[0]).(*ast.IndexExpr); ok && sliceObj != nil && isIdentOf(info, ix.X, sliceObj) {
 			k, okK := constInt(info, ix.Index)
 			v, okV := constUint(info, as.Rhs[0])
+			if !okK {
+				// index / bit computed by the package's own helpers from constants
+				if kk, ok := p.evalConstExpr(fi, ix.Index); ok {
+					k, okK = int64(kk), true
+				}
+			}
+			if !okV {
+				if vv, ok := p.evalConstExpr(fi, as.Rhs[0]); ok {
+					v, okV = vv, true
+				}
+			}
 			if okK && okV && k == 0 && v == 1<<63 {
 				okReserve = true
 			} else {
@@ -734,6 +779,8 @@ func c08r4(p *Program, r *Report) {
 		}
 		return true
 	})
+	okCaps := len(caps) == 2 && (caps[0] == 128 && caps[1] == 32768)
+	r.Check(okCaps && (capCond == "protocol > 2" || capCond == "protocol >= 3"), fi.Decl, "streams.New capacities 128 (v1-2) / 32768 (v3+)", "128 then 32768 under "+capCond, "stream capacities are not 128 for protocol <= 2 and 32768 for protocol >= 3: ids exceed the 7/15-bit stream field")
 	r.Check(okBuckets, fi.Decl, "streams.New word count = capacity / 64", "buckets = maxStreams / 64", "the number of 64-bit words is not capacity/64")
 	r.Check(okReserve && !other, fi.Decl, "streams.New reserves exactly id 0", "streams[0] = 1<<63 (the bit of id 0) and nothing else", "the constructor does not pre-set exactly the bit of stream id 0: id 0 can be handed out, or another id is lost forever")
 	// streamOffset / streamFromBucket / bucketOffset shapes
